@@ -395,3 +395,79 @@ def replay_rerun_after_alter(obligation=None, model=None, meta=None):
                     'observed': 'the second solution differs by %.3e from the solution of a fresh system with the same change made before its first run' % d,
                     'native_cmd': 'contracts/fn_sequence.py replay_rerun_after_alter'}
     return {'confirmed': False, 'tried': n}
+
+
+def store_tf(pid):
+    """System._store_tf: for every state (or external state) of every model handed in that declares a time constant, the entries of
+    dae.Tf at the addresses of that state hold the CURRENT values of the time constant afterwards; entries at other addresses are kept."""
+    from pyvc.symval import TOptional, MaybeNone
+    EM = 'models.$e'
+    EV = EM + '.cache.states_and_ext.$e'
+
+    def snap(v):
+        v.st.ghost['Tf0'] = v.st.content(v.st.load('self.dae.Tf')).vals
+        v.st.ghost['in_iter'] = True
+        return z3.BoolVal(True)
+
+    def distinct(v):
+        a = v.st.content(v.st.load(EV + '.a'))
+        p, q = fresh('p', I), fresh('q', I)
+        tf = v.st.content(v.st.load('self.dae.Tf'))
+        return z3.And(z3.ForAll([p, q], z3.Implies(z3.And(p >= 0, p < q, q < a.n), a.vals[p] != a.vals[q])),
+                      z3.ForAll([p], z3.Implies(z3.And(p >= 0, p < a.n), z3.And(a.vals[p] >= 0, a.vals[p] < tf.n))))
+
+    def inv(v):
+        if not v.st.ghost.get('in_iter'):
+            return True
+        a = v.st.content(v.st.load(EV + '.a'))
+        tf = v.st.content(v.st.load('self.dae.Tf'))
+        tf0 = v.st.ghost['Tf0']
+        k, j = fresh('k', I), fresh('j', I)
+        tv = v.st.content(v.st.load(EV + '.t_const.v'))
+        written = z3.And(tv.n == a.n, z3.ForAll([k], z3.Implies(z3.And(k >= 0, k < a.n), tf.vals[z3.ToInt(a.vals[k])] == tv.vals[k])))
+        kept_else = z3.ForAll([j], z3.Or(tf.vals[j] == tf0[j], z3.Exists([k], z3.And(k >= 0, k < a.n, z3.ToInt(a.vals[k]) == j))))
+        kept_all = z3.ForAll([j], tf.vals[j] == tf0[j])
+        none = v.st.load(EV + '.t_const').isnone
+        return z3.If(none, kept_all, z3.And(written, kept_else))
+
+    c = Contract(FS, 'System._store_tf', pid=pid, params={'self': TObj(), 'models': TColl()},
+                 schema={'models': TColl(), EM + '.cache.states_and_ext': TColl(), EV + '.a': TArr(kind='int'), EV + '.t_const': TOptional(TObj()), EV + '.t_const.v': TArr(),
+                         'self.dae.Tf': TArr()},
+                 loops={0: Loop(inv=[], frame=['$mdl', '$var', 'loc:self.dae.Tf', EM + '.*']),
+                        1: Loop(inv=[('time-constant-of-this-state-stored-at-its-addresses,others-kept', inv)],
+                                assume=[('snapshot', snap), ('addresses-of-one-state-distinct-and-in-range(C10)', distinct),
+                                        ('lengths', lambda v: v.st.content(v.st.load(EV + '.t_const.v')).n == v.st.content(v.st.load(EV + '.a')).n)],
+                                frame=['$var', 'loc:self.dae.Tf', EV + '.*'])},
+                 ensures=[], modifies=['self.dae.Tf'])
+    c.merge = False
+
+    def pre_state(st):
+        st.ghost.pop('in_iter', None)
+    c.pre_state = pre_state
+    return c
+
+
+def replay_store_tf(obligation=None, model=None, meta=None):
+    """native: after TDS.init on stock cases dae.Tf holds, at the addresses of every state, the time constant the model declares now"""
+    import contextlib
+    import io
+    import logging
+    import numpy as np
+    import andes
+    from contracts.bounded_tds_rule import model_time_constants
+    logging.getLogger('andes').setLevel(logging.CRITICAL)
+    n = 0
+    for case in ('kundur/kundur_full.xlsx', 'ieee14/ieee14_full.xlsx'):
+        n += 1
+        with contextlib.redirect_stdout(io.StringIO()), contextlib.redirect_stderr(io.StringIO()):
+            ss = andes.load(andes.get_case(case), default_config=True, no_output=True)
+            ss.PFlow.run()
+            ss.TDS.init()
+        T = model_time_constants(ss)
+        Tf = np.array(ss.dae.Tf)
+        if T.shape != Tf.shape or not np.allclose(T, Tf, rtol=1e-12, atol=0):
+            j = int(np.argmax(np.abs(T - Tf))) if T.shape == Tf.shape else 0
+            return {'confirmed': True, 'inputs': {'case': case, 'sequence': 'PFlow.run(); TDS.init()'},
+                    'observed': 'dae.Tf[%d] (%s) = %r but the model declares the time constant %r' % (j, ss.dae.x_name[j], float(Tf[j]), float(T[j])),
+                    'native_cmd': 'contracts/fn_sequence.py replay_store_tf'}
+    return {'confirmed': False, 'tried': n}
